@@ -313,6 +313,13 @@ class C07(Prop, ScriptGen):
                 yield self.ev(sc, st, mask, tag='grid-limit')
                 yield self.vf(b''.join(push(x) for x in st) if all(len(x) <= 520 for x in st) and len(st) < 400 else b'',
                               sc, mask, tag='grid-limit-verify')
+        # P2SH with degenerate redeem scripts (shared ScriptGen.p2sh_degenerate)
+        i = 0
+        for (sg_, spk_, mask, tag) in self.p2sh_degenerate():
+            i += 1
+            if i % nshards != shard:
+                continue
+            yield self.vf(sg_, spk_, mask | (8 if i % 3 == 0 else 0), 1, 1, i % 2, tag=tag)
         # OPERAND matrix (shared ScriptGen.operand_matrix): every operand the code indexes into — signatures, public keys
         # — at every small length and every truncation point, reaching CHECKSIG / CHECKSIGVERIFY / CHECKMULTISIG(VERIFY)
         # bare, through P2SH and by EvalScript
